@@ -41,6 +41,11 @@ type env struct {
 	locks    map[util.Uint160]*lockInfo
 	released map[util.Uint160]bool
 	everLock map[util.Uint160]bool
+	// lockParent: who funded a lock account (every mode)
+	lockParent map[util.Uint160]util.Uint160
+	lockUntil  map[util.Uint160]int64
+	// relock: generate locks onto accounts that already hold funds (C09)
+	relock bool
 }
 
 func newEnv(b *runner.Batch, n int) (*env, error) {
@@ -53,7 +58,7 @@ func newEnv(b *runner.Batch, n int) (*env, error) {
 	}
 	e := &env{b: b, w: w, bal: w.H("balance"), nm: w.H("netmap"), balID: w.C["balance"].ID,
 		shadow: map[util.Uint160]*big.Int{}, supply: big.NewInt(0),
-		locks: map[util.Uint160]*lockInfo{}, released: map[util.Uint160]bool{}, everLock: map[util.Uint160]bool{}}
+		locks: map[util.Uint160]*lockInfo{}, released: map[util.Uint160]bool{}, everLock: map[util.Uint160]bool{}, lockParent: map[util.Uint160]util.Uint160{}, lockUntil: map[util.Uint160]int64{}}
 	d, err := w.Deploy("holder", b.Helpers["holder"], nil)
 	if err != nil {
 		return nil, err
